@@ -196,6 +196,28 @@ def check_termination(mod, rep, rid):
                 continue
             if not escapes(f, term):
                 term.add(f.name); changed = True
+    # ... and the terminator really is a NUL inside the buffer: the character writer called with 0, and every marker function, evaluated path by
+    # path from the descriptor invariant (engine E4m), leave a 0 at the entry cursor position or in the last byte on every path that has a
+    # buffer to write to and was not entered with the overflow flag already set
+    from .. import bufeval
+    for w in sorted(charw | markers):
+        f = mod.func(w)
+        fixed = None
+        if w in charw:
+            ia = [a['id'] for a in f.args if a['ty'].startswith('i')]
+            fixed = {ia[0]: 0} if len(ia) == 1 else None
+            if fixed is None:
+                continue
+        r = bufeval.analyse_writer(mod, f, fixed)
+        if not r or r[0] != 'ok':
+            rep.instance(rid, '%s: NUL termination not decided by path evaluation (%s)' % (w, r[1] if r else 'not a descriptor function'))
+            continue
+        bad = sum(1 for t in r[4] if t is False)
+        rep.instance(rid, '%s%s: %d path(s) evaluated, NUL inside the buffer on every path that needs one: %s' % (w, ' (c = 0)' if fixed else '', len(r[4]), bad == 0)); rep.oblig(rid, bad == 0)
+        if bad:
+            rep.violate(Violation(rid, '%s:%d in %s' % (IR.rel(f.file), f.line, w),
+                '%s%s can return on %d path(s) without having put a NUL at the cursor position or in the last byte of a non-empty buffer: the result is not NUL-terminated inside buf[0..n-1] (e.g. for a buffer shorter than the "..." marker)' % (w, ' called with the terminator' if fixed else '', bad),
+                site='%s/no-nul' % w))
     # roots: the emitters the public functions hand their freshly initialised buffer to (or the public function itself)
     roots = []
     for P in mod.defined.values():
